@@ -16,11 +16,32 @@ def prove_run(ctx, want, forge):
         json.dump(rp.get("replay", rp), open(f"{work}/replay_corpus/r.json", "w"))
         cmd = [ctx["harness"], "prove", "--seed", str(seed), "--programs", "0", "--forge", str(max(forge, 8)),
                "--out", out, "--corpus", f"{work}/replay_corpus"]
-    rc, o = ctx["sh"](cmd, timeout=14400)
+    shards = 1 if (tier == "quick" or ctx.get("replay")) else 8
+    if shards == 1:
+        rc, o = ctx["sh"](cmd, timeout=14400)
+        if rc != 0:
+            return [{"class": "harness-crash", "what": f"harness prove exited {rc}: {o[-300:]}", "replay": {"cmd": cmd}, "no_input": True}], {}
+        rep = json.load(open(f"{out}/prove.report.json"))
+    else:
+        # thorough: independent shards (distinct PRNG seeds) in parallel, reports merged; shard 0 replays the corpus
+        import subprocess
+        procs = []
+        for k in range(shards):
+            o_k = f"{work}/run{k}"
+            c_k = [ctx["harness"], "prove", "--seed", str(seed * 1000 + k), "--programs", str(1000), "--max-calls", str(max_calls),
+                   "--forge", str(forge), "--out", o_k] + (["--corpus", f"{ctx['root']}/corpus/prove"] if k == 0 else [])
+            procs.append((c_k, o_k, subprocess.Popen(c_k, stdout=subprocess.PIPE, stderr=subprocess.STDOUT, text=True)))
+        rep = {"violations": [], "evaluations": 0, "distinct": 0, "samples": [], "hist": {}}
+        for c_k, o_k, pr in procs:
+            o, _ = pr.communicate(timeout=14400)
+            if pr.returncode != 0:
+                return [{"class": "harness-crash", "what": f"harness prove exited {pr.returncode}: {o[-300:]}", "replay": {"cmd": c_k}, "no_input": True}], {}
+            r = json.load(open(f"{o_k}/prove.report.json"))
+            rep["violations"] += r["violations"]; rep["evaluations"] += r["evaluations"]; rep["distinct"] += r["distinct"]
+            rep["samples"] = (rep["samples"] + r["samples"])[:4]
+            for hk, hv in r["hist"].items():
+                rep["hist"][hk] = rep["hist"].get(hk, 0) + hv
     violations = []
-    if rc != 0:
-        return [{"class": "harness-crash", "what": f"harness prove exited {rc}: {o[-300:]}", "replay": {"cmd": cmd}, "no_input": True}], {}
-    rep = json.load(open(f"{out}/prove.report.json"))
     for v in rep["violations"]:
         if v["property"] != want:
             continue
